@@ -4519,20 +4519,25 @@ def c10_scramble(ns):
         ex = Executor(policy=pol, getattr_hook=gh)
         ex.abstract_hook = ah
         fr = ex.func('dadi/Spectrum_mod.py', 'Spectrum.scramble_pop_ids')
+        data.attrs['layout'] = 'any'          # the spectrum may be a view with any memory layout (transposed, Fortran-ordered, ...)
         paths = ex.run(fr, [data], dict(mask_corners=False))
-        if len(paths) != 1 or paths[0].outcome != 'return':
-            return [struct(oid, False, 'expected one returning path: %r' % paths[:2], fn, undecided=True)]
-        res = paths[0].value
-        got_shape = ex.list_method(res, 'shape') if isinstance(res, VList) else None
-        out = [struct(oid + '.shape', got_shape == shape, 'same shape (got %s)' % (got_shape,), fn)]
-        if got_shape != shape:
-            return out
+        if not paths or any(p.outcome != 'return' for p in paths) or len(paths) > 2:
+            return [struct(oid, False, 'expected returning paths only (one, or one per memory layout): %r' % paths[:2], fn, undecided=True)]
+        out = []
         exp = uf('exp')
-        for idx in f0:
-            D = sum(idx)
-            pooled = sum((f0[j] for j in f0 if sum(j) == D), z3.RealVal(0))
-            arg = sum((lnc(z3.RealVal(ns[i]), z3.RealVal(idx[i])) for i in range(P)), z3.RealVal(0)) - lnc(z3.RealVal(N), z3.RealVal(D))
-            out.append(prove_eq('%s.entry%s' % (oid, '_'.join(map(str, idx))), list(paths[0].pc), _nd_get(res, idx), exp(arg) * pooled, fn))
+        for pi, p in enumerate(paths):
+            o = oid if pi == 0 else '%s.layout%d' % (oid, pi)
+            res = p.value
+            got_shape = ex.list_method(res, 'shape') if isinstance(res, VList) else None
+            out.append(struct(o + '.shape', got_shape == shape, 'same shape (got %s)' % (got_shape,), fn))
+            if got_shape != shape:
+                continue
+            for idx in f0:
+                D = sum(idx)
+                pooled = sum((f0[j] for j in f0 if sum(j) == D), z3.RealVal(0))
+                arg = sum((lnc(z3.RealVal(ns[i]), z3.RealVal(idx[i])) for i in range(P)), z3.RealVal(0)) - lnc(z3.RealVal(N), z3.RealVal(D))
+                out.append(prove_eq('%s.entry%s' % (o, '_'.join(map(str, idx))), list(p.pc), _nd_get(res, idx), exp(arg) * pooled, fn,
+                                    finding_key='C10/scramble/value'))
         return out
     return go()
 
